@@ -5,7 +5,8 @@ cd "$(dirname "$0")"
 ROOT=$(pwd)
 cd coq
 [ -f Makefile ] || coq_makefile -f _CoqProject -o Makefile >/dev/null
-timeout 3000 make -j16 >"$ROOT/coq/build.log" 2>&1 || { tail -30 "$ROOT/coq/build.log"; exit 1; }
+# everything except the property files (those are compiled below, each run keeping what it prints)
+timeout 5000 make -j16 $(grep '^theories/.*\.v$' _CoqProject | grep -v '^theories/Props/' | sed 's/\.v$/.vo/') >"$ROOT/coq/build.log" 2>&1 || { tail -30 "$ROOT/coq/build.log"; exit 1; }
 cd extract
 if [ ! -f mqmodel.ml ] || [ ../theories/Model.vo -nt mqmodel.ml ] || [ ../theories/Exec.vo -nt mqmodel.ml ]; then
   timeout 600 coqc -Q ../theories MQ Extract.v >/dev/null
@@ -18,24 +19,27 @@ fi
 cd "$ROOT/harness"
 cp /repo/Cargo.lock Cargo.lock 2>/dev/null || true
 CARGO_NET_OFFLINE=true timeout 1200 cargo build --offline >"$ROOT/harness/build.log" 2>&1 || { grep -E "^error" -A12 "$ROOT/harness/build.log" | head -60; exit 1; }
-# warm the per-property proof-output cache (Print Assumptions of every property file), in parallel
+# the property files: compiled one make call each, in parallel; what each prints (pinned statements, Print Assumptions)
+# is kept in work/proofcache/<id>.out for the proof stage of the checks
 cd "$ROOT"
 python3 - <<'PYEOF'
-import os, subprocess, concurrent.futures as cf
+import os, subprocess, sys, concurrent.futures as cf
 root = os.getcwd()
 coq = os.path.join(root, "coq")
 os.makedirs(os.path.join(root, "work", "proofcache"), exist_ok=True)
 def one(pid):
-    vo = os.path.join(coq, "theories", "Props", pid + ".vo")
-    pf = os.path.join(coq, "theories", "Props", pid + ".v")
     cache = os.path.join(root, "work", "proofcache", pid + ".out")
-    if os.path.exists(cache) and os.path.getmtime(cache) >= os.path.getmtime(vo) and os.path.getmtime(cache) >= os.path.getmtime(pf):
-        return
-    r = subprocess.run("timeout 2400 coqc -Q theories MQ theories/Props/%s.v" % pid, shell=True, cwd=coq, capture_output=True, text=True)
-    if r.returncode == 0:
-        open(cache, "w").write(r.stdout)
+    r = subprocess.run("timeout 3000 make -C %s theories/Props/%s.vo" % (coq, pid), shell=True, capture_output=True, text=True)
+    if r.returncode != 0:
+        return pid + ": " + (r.stdout + r.stderr)[-600:]
+    marker = "COQC theories/Props/%s.v" % pid
+    if marker in r.stdout:
+        open(cache, "w").write(r.stdout[r.stdout.index(marker):])
+    return None
 pids = sorted(f[:-2] for f in os.listdir(os.path.join(coq, "theories", "Props")) if f.endswith(".v"))
-with cf.ThreadPoolExecutor(max_workers=12) as ex:
-    list(ex.map(one, pids))
+with cf.ThreadPoolExecutor(max_workers=14) as ex:
+    bad = [b for b in ex.map(one, pids) if b]
+if bad:
+    print("\n".join(bad)); sys.exit(1)
 PYEOF
 echo build-ok
